@@ -76,7 +76,7 @@ func genStream(rt *rapid.T) *stream {
 			f := rapid.SampledFrom(s.files).Draw(rt, "file")
 			pos := f.Pos(rapid.IntRange(0, f.Size()).Draw(rt, "off"))
 			id := rapid.SampledFrom([]string{"a", "$x", "foo_1", "T$1"}).Draw(rt, "ident")
-			orig := rapid.SampledFrom([]string{"a", "x", "Foo", "método", ""}).Draw(rt, "orig")
+			orig := rapid.SampledFrom([]string{"a", "x", "Foo", "método", "", strings.Repeat("long", 70), strings.Repeat("n", 255), strings.Repeat("é", 130)}).Draw(rt, "orig")
 			s.items = append(s.items, item{hint: compiler.VerifIdentHint(id, orig, pos), pos: pos, name: orig, ident: id})
 		}
 	}
@@ -407,7 +407,7 @@ func genTokens(rt *rapid.T, fset *token.FileSet, f *token.File) []tok {
 		default:
 			pos := f.Pos(rapid.IntRange(0, f.Size()).Draw(rt, "off"))
 			if rapid.Bool().Draw(rt, "identhint") {
-				toks = append(toks, tok{string(compiler.VerifIdentHint("v", "orig", pos)) + "v", 'h'})
+				toks = append(toks, tok{string(compiler.VerifIdentHint("v", rapid.SampledFrom([]string{"orig", strings.Repeat("orig", 80)}).Draw(rt, "hintname"), pos)) + "v", 'h'})
 			} else {
 				toks = append(toks, tok{string(compiler.VerifPosHint(pos)), 'h'})
 			}
@@ -608,8 +608,12 @@ func genThrowProgram(rt *rapid.T) (src string, sites []site) {
 	n := rapid.IntRange(2, 6).Draw(rt, "nsites")
 	var calls []string
 	for i := 0; i < n; i++ {
-		kind := rapid.IntRange(0, 5).Draw(rt, "sitekind")
+		kind := rapid.IntRange(0, 7).Draw(rt, "sitekind")
 		name := fmt.Sprintf("site%d", i)
+		if rapid.IntRange(0, 5).Draw(rt, "longname") == 0 {
+			// identifier hints carry the name: very long names need more than one length byte
+			name += "_" + strings.Repeat("veryLongName", rapid.IntRange(8, 24).Draw(rt, "namelen"))
+		}
 		blocking := rapid.Bool().Draw(rt, "blocking")
 		gos := ""
 		if blocking {
@@ -652,6 +656,17 @@ func genThrowProgram(rt *rapid.T) (src string, sites []site) {
 			w(st)
 			w("\treturn x + len(g.v)\n}\n\n")
 			calls = append(calls, fmt.Sprintf("%s(t, 1, G[string]{})", name))
+		case 6, 7: // the throwing statement is a return with operands in a function with named results
+			if kind == 6 {
+				w(fmt.Sprintf("func %s(t *T, x int) (q int, ok bool) {\n%s", name, gos))
+			} else {
+				w(fmt.Sprintf("func %s(\n\tt *T,\n\tx int,\n) (\n\tq int,\n\tok bool,\n) {\n%s", name, gos))
+			}
+			filler()
+			sites = append(sites, site{name, line, line})
+			w(rapid.SampledFrom([]string{"\treturn t.s[x+5], true\n", "\treturn x / zero, zero == 0\n", "\treturn add(x, t.s[x+7], 3), false\n"}).Draw(rt, "retthrow"))
+			w("}\n\n")
+			calls = append(calls, fmt.Sprintf("fst(%s(t, 1))", name))
 		case 4: // inside a loop and switch
 			w(fmt.Sprintf("func %s(t *T, x int) int {\n%s", name, gos))
 			w("\tfor i := 0; i < 3; i++ {\n\t\tswitch {\n\t\tcase i == 1:\n")
@@ -672,7 +687,7 @@ func genThrowProgram(rt *rapid.T) (src string, sites []site) {
 			calls = append(calls, fmt.Sprintf("%s(t, 1)", name))
 		}
 	}
-	w("var zero int\n\nfunc add(a, b, c int) int { return a + b + c }\nfunc boolf() bool { return zero == 0 }\nfunc intf(s string) int { return len(s) }\n\n")
+	w("var zero int\n\nfunc add(a, b, c int) int { return a + b + c }\nfunc fst(a int, b bool) int { return a }\nfunc boolf() bool { return zero == 0 }\nfunc intf(s string) int { return len(s) }\n\n")
 	w("func main() {\n\tt := &T{s: []int{1, 2}}\n\tswitch argv(0) {\n")
 	for i, c := range calls {
 		w(fmt.Sprintf("\tcase \"%d\":\n\t\tout(itoa(%s))\n", i, c))
